@@ -229,6 +229,17 @@ impl Conn {
         v
     }
 
+    /// pop at most one parsed request (an owner that handles one request per wake-up)
+    pub fn pop_one(&mut self) -> Vec<(ReqObs, Vec<File>)> {
+        let mut v = Vec::new();
+        if let Some(mut r) = self.c.pop_parsed_request() {
+            let o = obs_of(&r);
+            let files = std::mem::take(&mut r.files);
+            v.push((o, files));
+        }
+        v
+    }
+
     pub fn pending_write(&self) -> bool {
         self.c.pending_write()
     }
